@@ -28,6 +28,7 @@ type Menu struct {
 	WalkSome bool // walk to leaves, to the parent of the pointer and to genesis
 	Play     bool
 	Submit   []string // tx names that may be submitted
+	DoTx     []string // tx names that may be handed to State.DoTx directly, without VerifyTx (the state machine's own admission checks)
 	Mine     int      // max number of mine events per history
 	Restart  bool
 	Query    bool
@@ -247,6 +248,11 @@ func (i *Inst) Enabled() []string {
 			add("submit:"+t, true)
 		}
 	}
+	for _, t := range i.Menu.DoTx {
+		if !i.Failed["dotx:"+t] {
+			add("dotx:"+t, false)
+		}
+	}
 	if i.Menu.Mine > i.mined {
 		add("mine", true)
 	}
@@ -384,6 +390,11 @@ func (i *Inst) apply(ev string) string {
 		return errObs(err)
 	case "play":
 		err := st.Play(i.ID(arg))
+		r := errObs(err)
+		i.drainDeferred()
+		return r
+	case "dotx":
+		err := st.DoTx(world.CloneTx(i.U.Tx(arg)))
 		r := errObs(err)
 		i.drainDeferred()
 		return r
